@@ -239,11 +239,13 @@ def _mk_np24(d, rng_v, maxint, ns, values="random", rng=None, shank_perm=None, f
     return ap, D
 
 
-def native_end_to_end(rng, rng_v, maxint, ns, window, nshank_assign, stale=False):
+def native_end_to_end(rng, rng_v, maxint, ns, window, nshank_assign, stale=False, interleaved=False, nsamples=None):
     d = tempfile.mkdtemp(prefix="c03_")
     try:
         perm = None
-        if nshank_assign is not None:
+        if interleaved:
+            perm = np.arange(384) % 4                                       # channel c on shank c mod 4: no shank owns two adjacent channels
+        elif nshank_assign is not None:
             ids = np.sort(rng.choice(4, nshank_assign, replace=False))       # any subset of the four shanks, e.g. {1, 3}
             if nshank_assign == 2:
                 ids = np.array([1, 3])                                      # always include one map whose shank ids are not 0..n-1
@@ -262,7 +264,12 @@ def native_end_to_end(rng, rng_v, maxint, ns, window, nshank_assign, stale=False
             c0.sr.close()
             D.tofile(ap)
         conv = neuropixel.NP2Converter(ap, post_check=False, compress=False)
-        conv.init_params(nwindow=window)
+        if nsamples is not None:
+            conv.init_params(nwindow=window, nsamples=nsamples)            # documented option: process the first nsamples samples only
+            D = D[:nsamples]
+            ns = nsamples
+        else:
+            conv.init_params(nwindow=window)
         st0 = conv.process(overwrite=True) if stale else conv.process()
         bad = []
         if st0 != 1:
@@ -287,7 +294,7 @@ def native_end_to_end(rng, rng_v, maxint, ns, window, nshank_assign, stale=False
         if st != 1 or not np.array_equal(np.fromfile(rec.save_file, dtype=np.int16), D.ravel()):
             bad.append(("reconstruction bytes differ", st))
         md = spikeglx.read_meta_data(str(rec.save_file)[:-3] + "meta")
-        diff = [k for k in orig_md if k not in md or md[k] != orig_md[k]]
+        diff = [k for k in orig_md if (k not in md or md[k] != orig_md[k]) and not (nsamples is not None and k in ("fileSizeBytes", "fileTimeSecs"))]
         extra = [k for k in md if k not in orig_md]
         if diff or extra != ["original_meta"]:
             bad.append(("metadata", diff[:5], extra[:5]))
@@ -313,6 +320,14 @@ def b_native(B):
         nsh = [2, None, 1, 3, 4][t % 5]
         bad = native_end_to_end(rng, rng_v, maxint, ns, window, nsh, stale=(t % 2 == 1))
         B.case(("e2e", t, ns, window, nsh, "over stale outputs" if t % 2 else "fresh"), not bad, detail=bad[:4], inputs={"kind": "e2e", "ns": ns, "window": window, "nshanks": nsh})
+    # shank maps without two adjacent channels on a shank (every saved-channel group is a single channel)
+    ns = int(rng.integers(1300, 3000))
+    bad = native_end_to_end(rng, *GAINS[0], ns, 1200, None, interleaved=True)
+    B.case(("e2e_interleaved_shanks", ns), not bad, detail=bad[:4], inputs={"kind": "e2e_interleaved", "ns": ns})
+    # only the first nsamples samples are processed (init_params(nsamples=...)): last window full / a few samples short of full / short
+    for W, N_ in ((1200, 1824), (1200, 2448), (1200, 2400), (600, 700)) if B.tier == "quick" else [(W, N_) for W in (600, 1200) for N_ in (W, W + 24, 2 * W - 576, 2 * W - 576 - 48, 3 * W - 2 * 576, 3 * W - 2 * 576 - 240, 700, 1999)]:
+        bad = native_end_to_end(rng, *GAINS[1], N_ + int(rng.integers(1, 900)), W, None, nsamples=N_)
+        B.case(("e2e_first_nsamples", W, N_), not bad, detail=bad[:4], inputs={"kind": "e2e_nsamples", "window": W, "nsamples": N_})
     # savedChans subset string <-> channel list
     rec = neuropixel.NP2Reconstructor.__new__(neuropixel.NP2Reconstructor)
     ok = True
@@ -323,3 +338,21 @@ def b_native(B):
         back = np.atleast_1d(rec._get_chans({"snsSaveChanSubset_orig": s}))
         ok = ok and np.array_equal(back, ch)
     B.case("savedchans_inverse", bool(ok), detail="_get_chans(_get_savedChans_subset(c)) != c for some strictly increasing c")
+    # the same through a metadata file (write_meta_data -> read_meta_data), as the reconstruction reads it: isolated channels, runs, the sync channel
+    d = tempfile.mkdtemp(prefix="c03_")
+    try:
+        badc = []
+        cases = [np.r_[np.arange(0, 384, 4), 384], np.r_[np.arange(1, 384, 4), 384], np.r_[0, 2, 3, 4, 9, 384], np.r_[np.arange(96), 384], np.r_[np.arange(288, 385)], np.r_[5, 384]]
+        cases += [np.r_[np.sort(rng.choice(384, int(rng.integers(1, 40)), replace=False)), 384] for _ in range(40)]
+        for ch in cases:
+            mf = os.path.join(d, "x.ap.meta")
+            spikeglx.write_meta_data({"nSavedChans": len(ch), "snsSaveChanSubset_orig": spikeglx._get_savedChans_subset(ch)}, mf)
+            try:
+                back = np.atleast_1d(rec._get_chans(spikeglx.read_meta_data(mf)))
+                if not np.array_equal(back, ch):
+                    badc.append((ch[:6].tolist(), back[:6].tolist()))
+            except Exception as e:
+                badc.append((ch[:6].tolist(), repr(e)[:80]))
+        B.case("savedchans_inverse_through_metadata_file", not badc, detail=badc[:3])
+    finally:
+        shutil.rmtree(d, ignore_errors=True)
